@@ -226,5 +226,226 @@ theorem invS_end (s : St) (t : Nat) (p : Pc) (st : Status) (f : TState → TStat
     | false => simpa using h.nodup
     | true => simpa using PyDict.nodup_keys_erase _ _ h.nodup
 
+
+theorem ts_setPc_inv (s : St) (t t' : Nat) (pc : Pc) (k' : TState) (h : (s.setPc t pc).ts[t']? = some k') :
+    ∃ k0 : TState, s.ts[t']? = some k0 ∧ k'.mustCancel = k0.mustCancel := by
+  simp only [setPc, List.getElem?_modify] at h
+  cases h0 : s.ts[t']? with
+  | none => simp [h0] at h
+  | some k0 =>
+    simp only [h0, Option.map_eq_map, Option.map_some, Option.some.injEq] at h
+    refine ⟨k0, rfl, ?_⟩
+    subst h
+    by_cases h1 : t = t' <;> simp [h1]
+
+/-- the "wait on another lookup's marker" branch: only `t`'s program counter changes -/
+theorem invS_wait (s : St) (t : Nat) (p : Pc) (e' : Nat) (h : InvS s) (hp : s.pcOf t = some p) (hpd : p ≠ .done) :
+    InvS (s.setPc t (.waitEvt e')) := by
+  have ht : t < s.ts.length := pcOf_lt s t p hp
+  have hpc := fun t' => pcOf_setPc s t t' (.waitEvt e') ht
+  constructor
+  · simp only [setPc, List.length_modify]; exact h.len
+  · intro t' p' hp' hne
+    rw [hpc] at hp'
+    split at hp'
+    · rename_i heq; subst heq; exact h.alive _ p hp hpd
+    · exact h.alive t' p' hp' hne
+  · intro t' k hk hm
+    obtain ⟨k0, g1, g2⟩ := ts_setPc_inv s t t' _ k hk
+    exact h.mc t' k0 g1 (by rw [← g2]; exact hm)
+  · exact h.dlEpoch
+  · exact h.startDl
+  · exact h.startEp
+  · exact h.later
+  · intro t' d e hp'
+    rw [hpc] at hp'
+    split at hp'
+    · simp at hp'
+    · exact h.own t' d e hp'
+  · exact h.res
+  · exact h.cur
+  · exact h.uniq
+  · intro t' d e hp'
+    rw [hpc] at hp'
+    split at hp'
+    · simp at hp'
+    · exact h.fresh t' d e hp'
+  · exact h.nodup
+
+/-- the state after installing a marker and issuing the request -/
+def installSt (s : St) (t : Nat) : St :=
+  (({ s with cache := PyDict.set s.cache (s.locOf t) (.marker s.nextEvt), nextEvt := s.nextEvt + 1 } : St).setPc t
+    (.waitDl s.mon.dls.length s.nextEvt)).emit (.requested t (s.locOf t))
+
+theorem invS_install (s : St) (t : Nat) (p : Pc) (h : InvS s) (hp : s.pcOf t = some p) (hpd : p ≠ .done)
+    (hc : PyDict.get? s.cache (s.locOf t) = none) : InvS (installSt s t) := by
+  have ht : t < s.ts.length := pcOf_lt s t p hp
+  have hpc : ∀ t', (installSt s t).pcOf t' = if t' = t then some (.waitDl s.mon.dls.length s.nextEvt) else s.pcOf t' := by
+    intro t'
+    show (St.setPc _ t _).pcOf t' = _
+    rw [pcOf_setPc _ _ _ _ (by exact ht)]; rfl
+  have hdls : (installSt s t).mon.dls = s.mon.dls ++
+      [{ loc := s.locOf t, owner := t, epoch := s.mon.epochOf (s.locOf t), outcome := none }] := rfl
+  have htasks : (installSt s t).mon.tasks = s.mon.tasks := rfl
+  have hep : ∀ l, (installSt s t).mon.epochOf l = s.mon.epochOf l := fun _ => rfl
+  have hst : ∀ x, (installSt s t).stOf x = s.stOf x := fun _ => rfl
+  have hloc : ∀ x, (installSt s t).locOf x = s.locOf x := fun _ => rfl
+  have hcache : (installSt s t).cache = PyDict.set s.cache (s.locOf t) (.marker s.nextEvt) := rfl
+  have hget : ∀ l, PyDict.get? (installSt s t).cache l =
+      if s.locOf t = l then some (.marker s.nextEvt) else PyDict.get? s.cache l := by
+    intro l
+    rw [hcache]
+    by_cases hl : s.locOf t = l
+    · subst hl; simp [PyDict.get?_set_self]
+    · simp [hl, PyDict.get?_set_ne _ _ _ _ hl]
+  have hnew : ∀ (i : Nat) (x : MDl), (installSt s t).mon.dls[i]? = some x →
+      s.mon.dls[i]? = some x ∨ (i = s.mon.dls.length ∧
+        x = { loc := s.locOf t, owner := t, epoch := s.mon.epochOf (s.locOf t), outcome := none }) := by
+    intro i x hx
+    rw [hdls, getElem?_concat] at hx
+    split at hx
+    · right; rename_i heq; exact ⟨heq, by cases hx; rfl⟩
+    · left; exact hx
+  have hold : ∀ (i : Nat) (x : MDl), s.mon.dls[i]? = some x → (installSt s t).mon.dls[i]? = some x := by
+    intro i x hx; rw [hdls]; exact dls_append_old _ _ _ _ hx
+  -- no live current-epoch download of this location exists (the cache entry is absent)
+  have hnone : ∀ (i : Nat) (x : MDl), s.mon.dls[i]? = some x → x.loc = s.locOf t → x.epoch = s.mon.epochOf x.loc →
+      s.stOf x.owner ≠ some .cancelled → False := by
+    intro i x hx hl hcur hs
+    have := h.cur i x hx hcur hs
+    rw [hl, hc] at this; simp at this
+  constructor
+  · show (List.modify _ _ _).length = s.mon.tasks.length
+    rw [List.length_modify]; exact h.len
+  · intro t' p' hp' hne
+    rw [hpc] at hp'; rw [hst]
+    split at hp'
+    · rename_i heq; subst heq; exact h.alive _ p hp hpd
+    · exact h.alive t' p' hp' hne
+  · intro t' k hk hm
+    have hk' : (St.setPc ({ s with cache := PyDict.set s.cache (s.locOf t) (.marker s.nextEvt), nextEvt := s.nextEvt + 1 } : St)
+        t (.waitDl s.mon.dls.length s.nextEvt)).ts[t']? = some k := hk
+    obtain ⟨k0, g1, g2⟩ := ts_setPc_inv _ t t' _ k hk'
+    rw [htasks]
+    exact h.mc t' k0 g1 (by rw [← g2]; exact hm)
+  · intro i x hx
+    rw [hep]
+    rcases hnew i x hx with h1 | ⟨_, h1⟩
+    · exact h.dlEpoch i x h1
+    · subst h1; exact Nat.le_refl _
+  · intro t' m hm
+    rw [htasks] at hm; rw [hdls, List.length_append]
+    have := h.startDl t' m hm; omega
+  · intro t' m hm; rw [htasks] at hm; rw [hep]; exact h.startEp t' m hm
+  · intro i t' x m hx hm hl hlt
+    rw [htasks] at hm
+    rcases hnew i x hx with h1 | ⟨h1, _⟩
+    · exact h.later i t' x m h1 hm hl hlt
+    · rw [h1]; exact h.startDl t' m hm
+  · intro t' d e hp'
+    rw [hpc] at hp'
+    split at hp'
+    · rename_i heq
+      simp only [Option.some.injEq, Pc.waitDl.injEq] at hp'
+      obtain ⟨rfl, rfl⟩ := hp'
+      subst heq
+      refine ⟨_, by rw [hdls]; exact List.getElem?_concat_length, rfl, rfl, ?_⟩
+      intro _; rfl
+    · rename_i hne
+      obtain ⟨x, q1, q2, q3, q4⟩ := h.own t' d e hp'
+      refine ⟨x, hold d x q1, by rw [hloc]; exact q2, q3, ?_⟩
+      intro hcc
+      rw [hloc, hget] at hcc; rw [hep, hloc]
+      split at hcc
+      · have hf := h.fresh t' d e hp'
+        simp only [Option.some.injEq, Entry.marker.injEq] at hcc
+        omega
+      · exact q4 hcc
+  · intro l v hcc
+    rw [hget] at hcc
+    split at hcc
+    · simp at hcc
+    · obtain ⟨i, x, q1, q2, q3, q4⟩ := h.res l v hcc
+      exact ⟨i, x, hold i x q1, q2, q3, by rw [hep]; exact q4⟩
+  · intro i x hx hcur hs
+    rw [hget]
+    split
+    · rfl
+    · rename_i hne
+      rcases hnew i x hx with h1 | ⟨_, h1⟩
+      · exact h.cur i x h1 hcur hs
+      · subst h1; exact absurd rfl hne
+  · intro i j x y hx hy hl hc1 hc2 hs1 hs2
+    rw [hep] at hc1 hc2; rw [hst] at hs1 hs2
+    rcases hnew i x hx with h1 | ⟨h1, h1'⟩ <;> rcases hnew j y hy with h2 | ⟨h2, h2'⟩
+    · exact h.uniq i j x y h1 h2 hl hc1 hc2 hs1 hs2
+    · exfalso; subst h2'
+      exact hnone i x h1 hl hc1 hs1
+    · exfalso; subst h1'
+      exact hnone j y h2 hl.symm hc2 hs2
+    · rw [h1, h2]
+  · intro t' d e hp'
+    show e < s.nextEvt + 1
+    rw [hpc] at hp'
+    split at hp'
+    · simp only [Option.some.injEq, Pc.waitDl.injEq] at hp'; omega
+    · have := h.fresh t' d e hp'; omega
+  · rw [hcache]; exact PyDict.nodup_keys_set _ _ _ h.nodup
+
+
+/-- the monitor's record of an unfinished task -/
+theorem mtask_of (s : St) (t : Nat) (p : Pc) (h : InvS s) (hp : s.pcOf t = some p) (hpd : p ≠ .done) :
+    ∃ m : MTask, s.mon.tasks[t]? = some m ∧ m.status = .pending ∧ m.loc = s.locOf t := by
+  have ht : t < s.mon.tasks.length := by rw [← h.len]; exact pcOf_lt s t p hp
+  have hm : s.mon.tasks[t]? = some s.mon.tasks[t] := List.getElem?_eq_getElem ht
+  have hst := h.alive t p hp hpd
+  simp only [stOf, Mon.statusOf, hm, Option.map_some, Option.some.injEq] at hst
+  exact ⟨_, hm, hst, by simp [locOf, hm]⟩
+
+/-- **shared outcome**: returning what the cache holds passes the monitor's `okReturn` -/
+theorem okReturn_of (s : St) (t : Nat) (p : Pc) (v : Out) (h : InvS s) (hp : s.pcOf t = some p) (hpd : p ≠ .done)
+    (hc : PyDict.get? s.cache (s.locOf t) = some (.result v)) : s.mon.okReturn t v = true := by
+  obtain ⟨m, hm, hst, hl⟩ := mtask_of s t p h hp hpd
+  obtain ⟨i, d, q1, q2, q3, q4⟩ := h.res _ v hc
+  unfold Mon.okReturn
+  simp only [hm, hst, beq_self_eq_true, Bool.true_and, List.any_eq_true, List.mem_range]
+  refine ⟨i, (List.getElem?_eq_some_iff.mp q1).1, ?_⟩
+  simp only [q1, Bool.and_eq_true, Bool.or_eq_true, beq_iff_eq, decide_eq_true_eq]
+  refine ⟨⟨by rw [q2, hl], q3⟩, ?_⟩
+  have h1 := h.startEp t m hm
+  rw [hl, ← q4] at h1
+  by_cases he : d.epoch = m.startEpoch
+  · left; exact he
+  · right
+    exact h.later i t d m q1 hm (by rw [hl, q2]) (by omega)
+
+/-- **single flight**: issuing a request when the cache has no entry passes the monitor's `okRequest` -/
+theorem okRequest_of (s : St) (t : Nat) (p : Pc) (h : InvS s) (hp : s.pcOf t = some p) (hpd : p ≠ .done)
+    (hc : PyDict.get? s.cache (s.locOf t) = none) : s.mon.okRequest t (s.locOf t) = true := by
+  obtain ⟨m, hm, hst, hl⟩ := mtask_of s t p h hp hpd
+  unfold Mon.okRequest
+  simp only [hm, hst, hl, beq_self_eq_true, Bool.and_self, Bool.true_and, List.all_eq_true]
+  intro d hd
+  obtain ⟨i, hi, rfl⟩ := List.getElem_of_mem hd
+  have q1 : s.mon.dls[i]? = some s.mon.dls[i] := List.getElem?_eq_getElem hi
+  by_cases hcond : (s.mon.dls[i].loc == s.locOf t && s.mon.dls[i].epoch == s.mon.epochOf (s.locOf t)) = true
+  · simp only [hcond, Bool.not_true, Bool.false_or, beq_iff_eq]
+    simp only [Bool.and_eq_true, beq_iff_eq] at hcond
+    by_cases hs : s.mon.statusOf s.mon.dls[i].owner = some .cancelled
+    · exact hs
+    · exfalso
+      have := h.cur i _ q1 (by rw [hcond.1]; exact hcond.2) hs
+      rw [hcond.1, hc] at this; simp at this
+  · simp [hcond]
+
+/-- a lookup ends cancelled only after `cancel` was called on it -/
+theorem okCancelled_of (s : St) (t : Nat) (k : TState) (h : InvS s) (hk : s.ts[t]? = some k)
+    (hm : k.mustCancel = true) (hpd : k.pc ≠ .done) : s.mon.okCancelled t = true := by
+  have hp : s.pcOf t = some k.pc := by simp [pcOf, hk]
+  obtain ⟨m, hmm, hst, _⟩ := mtask_of s t k.pc h hp hpd
+  obtain ⟨m', q1, q2⟩ := h.mc t k hk hm
+  rw [hmm] at q1; cases q1
+  simp [Mon.okCancelled, hmm, q2, hst]
+
 end St
 end Upnp.C18
